@@ -57,6 +57,9 @@ def schema_accepts(keys, v: Val) -> bool:
 
 
 def run(ctx):
+    ctx.rule("R16.s", "selector model, compute_default: Selector.compute_default and ListSelector.compute_default interpreted (objects declared up front, a computed default among / outside the "
+                      "objects, with and without check_on_set): the computed default -- every item of it -- ends up among the objects in force, exactly once, so the value the object then "
+                      "serializes is in the enum its schema lists", floor=1)
     ctx.rule("R16.a", "schema dispatch is exhaustive for the listed types: <lower>_schema exists or <lower> is a JSON-Schema primitive; methods deriving 'type' from the class name are reached only for primitive names", floor=15)
     ctx.rule("R16.b", "every key emitted by the schema methods is a JSON-Schema keyword and every literal 'type' value a primitive type name", floor=40)
     ctx.rule("R16.c", "declare_numeric_bounds emits exactly minimum|exclusiveMinimum -> low and maximum|exclusiveMaximum -> high chosen by inclusive_bounds[0]/[1]; "
@@ -426,3 +429,5 @@ def run(ctx):
     # model-level rule, run last
     from checks import setter_model
     setter_model.report(ctx, "C16", "R16.m")
+    from checks import selector_model
+    selector_model.report_compute_default(ctx, "R16.s")
